@@ -375,11 +375,50 @@ hint start
 
 # ---- MT192 / MT292 / MT296: C1 on field 79 vs the copy of the original fields
 TYPES['192'] = dict(
-    helpers=[('has_field_79', 'r == self.field_79.is_some()')],
+    consts=['MT192_VALID_79_CODES'],
+    preamble='''
+/// "/CODE/...": the text between the leading slash and the next one (or the end of the line), when it is four bytes long
+pub open spec fn slash_code(l: Seq<char>) -> Option<Seq<char>> {
+    if l.len() > 0 && l[0] == '/' {
+        let t = l.subrange(1, l.len() as int);
+        let code = t.subrange(0, ch_pos(t, '/'));
+        if vstd::utf8::encode_utf8(code).len() == 4 { Some(code) } else { None }
+    } else { None }
+}
+pub open spec fn f79_code(m: &MT192) -> Option<Seq<char>> {
+    if m.field_79.is_some() && m.field_79.unwrap().information@.len() > 0 { slash_code(m.field_79.unwrap().information@[0]@) } else { None }
+}
+pub proof fn lemma_ch_pos_bound(s: Seq<char>, ch: char)
+    ensures 0 <= ch_pos(s, ch) <= s.len()
+    decreases s.len()
+{ if s.len() > 0 && s[0] != ch { lemma_ch_pos_bound(s.subrange(1, s.len() as int), ch); } }
+/// a line that starts with the separator splits into an empty first piece and, second, the text up to the next separator
+pub proof fn lemma_split_leading(l: Seq<char>, ch: char)
+    requires l.len() > 0, l[0] == ch
+    ensures split_ch(l, ch).len() >= 2, split_ch(l, ch)[1] == l.subrange(1, l.len() as int).subrange(0, ch_pos(l.subrange(1, l.len() as int), ch))
+{
+    let t = l.subrange(1, l.len() as int);
+    lemma_ch_pos_bound(t, ch);
+    reveal_with_fuel(split_ch, 2);
+    assert(ch_pos(l, ch) == 0);
+    assert(l.subrange(1, l.len() as int) == t);
+    let i = ch_pos(t, ch);
+    if i >= t.len() { assert(t.subrange(0, i) =~= t); }
+}
+pub open spec fn valid_79_codes() -> Seq<&'static str> { seq!["AGNT", "AM09", "COVR", "CURR", "CUST", "CUTA", "DUPL", "FRAD", "TECH", "UPAY"] }
+pub open spec fn f79_spec(m: &MT192) -> Seq<Seq<char>> { one_if(f79_code(m).is_some() && !lits_contain(valid_79_codes(), f79_code(m).unwrap()), "T47"@) }
+''',
+    helpers=[('has_field_79', 'r == self.field_79.is_some()'),
+             ('get_field_79_cancellation_code', 'r.is_some() == f79_code(self).is_some() && (r.is_some() ==> r.unwrap()@ == f79_code(self).unwrap())', '''hint start
+  broadcast use {crate::vx::axiom_slice_chars, crate::vx::axiom_cidx};
+hint after "let parts: Vec<&str> ="
+  proof { let l = first_line@; vx::axiom_split_ch(l, '/'); if l.len() > 0 && l[0] == '/' { lemma_split_leading(l, '/'); } }
+''')],
     rules=[
         opt('validate_c1_field_79_or_copy', 'C25', 'm.field_79.is_none()',
             doc='C1 (C25): field 79 or a copy of the mandatory fields must be present (the copy is not represented: 79 is required)'),
-        stub('validate_field_79_codes', 'split-based code extraction'),
+        vec('validate_field_79_codes', 'f79_spec', doc='T47: a cancellation reason given as /CODE/ in the first line of field 79 must be one of the allowed codes',
+            extra='fmtcat *\nhint start\n  broadcast use group_codes;'),
     ])
 
 # ---- MT204: C3 (T10)
